@@ -109,10 +109,11 @@ func (b *setextHeadingParser) Close(node ast.Node, reader text.Reader, pc Contex
 
 	if b.AutoHeadingID {
 		id, ok := node.AttributeString("id")
-		if !ok {
-			generateAutoHeadingID(heading, reader, pc)
+		if idBytes, isBytes := id.([]byte); ok && isBytes {
+			pc.IDs().Put(idBytes)
 		} else {
-			pc.IDs().Put(id.([]byte))
+			// no id, or an id that is not text (a number, a boolean, a list)
+			generateAutoHeadingID(heading, reader, pc)
 		}
 	}
 }
